@@ -465,6 +465,7 @@ func (node *DDL) walkSubtree(visit Visit) error {
 		visit,
 		node.Table,
 		node.NewName,
+		node.TableSpec,
 	)
 }
 
@@ -641,7 +642,11 @@ func (ct *ColumnType) Format(buf *TrackedBuffer) {
 }
 
 func (ct *ColumnType) walkSubtree(visit Visit) error {
-	return nil
+	if ct == nil || ct.Default == nil {
+		return nil
+	}
+	// the default value is a literal taken from the statement like any other
+	return Walk(visit, ct.Default)
 }
 
 // Format formats the node.
